@@ -1,16 +1,31 @@
 #!/usr/bin/env python3
-"""Render seeded/RESULTS*.tsv as a markdown table (seed, property, needs, result)."""
-import json, os, sys, glob
-rows = {}
+"""Render seeded/RESULTS*.tsv as a markdown table: seed, property, first line of its notes, result of the first run against the
+checks as they stood when the round was produced ("as is"), result of the latest run after strengthening."""
+import glob
+import json
+import os
+import re
+
+first, last = {}, {}
 for f in sorted(glob.glob('/verif/seeded/RESULTS*.tsv')):
     for l in open(f):
         p = l.rstrip('\n').split('\t')
         if len(p) >= 3:
-            rows[p[0]] = p
-print("| seed | property | what it is (first line of its notes) | own check, quick tier |")
-print("|---|---|---|---|")
-for s in sorted(rows):
-    p = rows[s]
+            first.setdefault(p[0], p)
+            last[p[0]] = p
+
+
+def res(p):
+    rc = p[2]
+    summary = p[3] if len(p) > 3 else ''
+    m = re.search(r'violations=(\d+).*harness_errors=(\d+)', summary)
+    return {'rc=1': 'caught (%s obl.)' % (m.group(1) if m else '?'), 'rc=0': 'MISSED', 'rc=2': 'not caught (harness error)',
+            'rc=124': 'timeout'}.get(rc, rc)
+
+
+print("| seed | property | what it is (first line of its notes) | first run | latest run |")
+print("|---|---|---|---|---|")
+for s in sorted(last):
     d = '/verif/seeded/' + s
     note = ''
     if os.path.exists(d + '/notes.md'):
@@ -19,11 +34,7 @@ for s in sorted(rows):
             if line:
                 note = line[:110]
                 break
-    else:
+    elif os.path.exists(d + '/meta.json'):
         note = json.load(open(d + '/meta.json')).get('source', '')[:110]
-    rc = p[2]
-    summary = p[3] if len(p) > 3 else ''
-    import re
-    m = re.search(r'violations=(\d+).*harness_errors=(\d+)', summary)
-    res = {'rc=1': 'caught (VIOLATION, %s obligations)' % (m.group(1) if m else '?'), 'rc=0': 'MISSED', 'rc=2': 'not caught (harness error, exit 2)'}.get(rc, rc)
-    print("| %s | %s | %s | %s |" % (s, p[1], note.replace('|', '/'), res))
+    a, b = res(first[s]), res(last[s])
+    print("| %s | %s | %s | %s | %s |" % (s, last[s][1], note.replace('|', '/'), a, b if last[s] is not first[s] else "="))
